@@ -255,6 +255,28 @@ def _p_ram(ctx, case):
     return {"P": P}
 
 
+def realise(case, values):
+    """accumulate cases: the model chooses the auxiliary values t = (P/Z)**(-1/d) freely (within monotonicity);
+    the concrete replay needs parameters P_i that produce them: P_i = Z * t_i**(-d) for the exponent that is used"""
+    if case.get("kind") != "accumulate" or not any(k.startswith("aux:t") for k in values):
+        return values
+    from fractions import Fraction
+    n = len(case["runs"])
+    c = CONST.all_constants["Steel"]
+    Z = float(values["Z"])
+    for i in range(n):
+        t1, t2 = values.get("aux:t%d" % i), values.get("aux:t%d" % (n + i))
+        if t1 is None or t2 is None:
+            continue
+        t1, t2 = float(t1), float(t2)
+        if t1 >= 1:          # P >= Z: exponent 1/d_1 is used
+            P = Z * t1 ** (-float(c.d_1))
+        else:
+            P = Z * t2 ** (-float(c.d_2))
+        values["P%d" % i] = Fraction(P)
+    return values
+
+
 def _cumsum_fallback(sgb):
     """object-dtype fall-back for SeriesGroupBy.cumsum (pandas refuses object columns)"""
     ser = sgb.obj
@@ -280,14 +302,21 @@ def _accumulate(ctx, case):
         cache = {}
 
         def hook(b, e):
-            # x**y (non-integer y) of a positive quantity is an arbitrary positive number that depends only on
-            # (x, y).  It is represented as 1/t with a fresh t > 0, so that the damages c/N = c*t/1000 stay linear.
+            # x**y (non-integer y < 0) of a positive quantity is a positive number that depends only on (x, y),
+            # decreases in x and equals 1 at x = 1.  It is represented as 1/t with a fresh t > 0 (registered as
+            # an auxiliary input so that counterexamples can be realised, see realise()), which keeps the
+            # damages c/N = c*t/1000 linear.
             key = (repr(b), repr(e))
             if key not in cache:
-                t = ctx.eng.fresh_real("invpow")
-                ctx.eng.define(t > 0)
-                cache[key] = SymReal(t)
-            return 1 / cache[key]
+                t = ctx.real("aux:t%d" % len(cache))
+                ctx.assume(t > 0)
+                ctx.assume((b >= 1) == (t >= 1))
+                ctx.assume((b == 1) == (t == 1))
+                for (ob, oe, ot) in cache.values():
+                    if repr(oe) == repr(e):
+                        ctx.assume(sym_and((ob < b) == (ot < t), (ob == b) == (ot == t)))
+                cache[key] = (b, e, t)
+            return 1 / cache[key][2]
         ctx.eng.power_hook = hook
         import pandas.core.groupby.generic as G
         orig = G.SeriesGroupBy.cumsum
